@@ -278,14 +278,33 @@ Fixpoint c_get (c : cview) (idx : list N) : option (N * N) :=
   end.
 
 (* ---------- data_layout ---------- *)
-Fixpoint c_layout (c : cview) : outcome layout :=
+
+(* TensorTranspose::data_layout.
+   AS WRITTEN (src/tensors/indexing.rs:1570-1580 with dimensions.rs:160-186):
+     Linear(order) => Linear(from_fn(|d| order[source_to_requested[d]]))
+   which is only right when `order` equals the names of the source's view_shape in order (a plain
+   Tensor source); over a source whose memory order differs from its shape order (a TensorAccess,
+   a transposition, a column-major matrix) the claimed order is wrong: KNOWN DEFECT D1, see
+   /verif/notes/C02.md and Proofs/C02P.v (transpose_layout_as_written_refuted).
+   DEMANDED (what the model uses; the same position-based renaming TensorRename::data_layout does):
+   the dimension the source calls order[i] sits at position p of the source shape, is requested at
+   position source_to_requested[p], and the transposition names that position names[s2r[p]]. *)
+Definition transpose_layout_as_written (tbl : list (nat * nat)) (order : list name) : list name :=
+  map_linear_data_layout_to_transposed tbl order.
+Definition transpose_layout (sh : shape) (tbl : list (nat * nat)) (order : list name)
+  : option (list name) :=
+  option_map (map (fun p => nth (nth p (dm_s2r tbl) 0%nat) (names_of sh) 0%nat))
+             (sequence (map (position_of sh) order)).
+
+(* as_written = true: the transcription of today's code; false: the demanded behaviour *)
+Fixpoint c_layout_gen (as_written : bool) (c : cview) : outcome layout :=
   match c with
   | CTensor _ sh _ => Ok (Linear (names_of sh))
   | CMatrix _ _ _ n0 n1 => Ok (Linear [n0; n1])          (* Matrix is RowMajor *)
   | CRange _ _ | CMask _ _ | CIndex _ _ | CExpand _ _ | CStack _ _ _ | CChain _ _ => Ok NonLinear
   | CReverse _ _ => Ok Other
   | CRename c ns =>
-      match c_layout c with
+      match c_layout_gen as_written c with
       | Ok (Linear order) =>
           (* order_d[i] = position_of(shape, order[i]) or panic; Linear(from_fn(|i| dimensions[order_d[i]])) *)
           match sequence (map (position_of (c_shape c)) order) with
@@ -294,14 +313,20 @@ Fixpoint c_layout (c : cview) : outcome layout :=
           end
       | other => other
       end
-  | CAccess c _ => c_layout c
+  | CAccess c _ => c_layout_gen as_written c
   | CTranspose c tbl =>
-      match c_layout c with
-      | Ok (Linear order) => Ok (Linear (map_linear_data_layout_to_transposed tbl order))
+      match c_layout_gen as_written c with
+      | Ok (Linear order) =>
+          if as_written then Ok (Linear (transpose_layout_as_written tbl order))
+          else match transpose_layout (c_shape c) tbl order with
+               | Some o => Ok (Linear o)
+               | None => Panic
+               end
       | other => other
       end
-  | CWrap c => c_layout c
+  | CWrap c => c_layout_gen as_written c
   end.
+Definition c_layout : cview -> outcome layout := c_layout_gen false.
 
 (* ---------- the constructors ---------- *)
 
